@@ -96,6 +96,8 @@ def gen_case(rng, tier):
     # only has asked not to be told - --log-level is not among the configurations
     # the property quantifies over, see DESIGN.md 10.3)
     case["log_level"] = rng.choice([None, None, None, "DEBUG", "WARNING", "ERROR", "ERROR"])
+    # --output given as a bare file name, the tool started inside the output directory
+    case["rel_output"] = rng.random() < 0.3
     return case
 
 
@@ -138,7 +140,7 @@ class Runner:
         self.outfile = os.path.join(self.outd, f"x{c['version']}.{c['fmt']}")
 
     def args(self, mode, write_log=None):
-        a = ["-a", self.asm, "-p", self.prt, "-o", self.outfile]
+        a = ["-a", self.asm, "-p", self.prt, "-o", os.path.basename(self.outfile) if self.case.get("rel_output") else self.outfile]
         a.append("--write-log" if (self.case["write_log"] if write_log is None else write_log) else "--no-write-log")
         if mode == "noclobber":
             a.append("--no-clobber")
@@ -159,6 +161,8 @@ class Runner:
 
         def body():
             mark = None
+            if self.case.get("rel_output"):
+                os.chdir(self.outd)  # (a forked child: the harness stays where it is)
             if prelude is not None:
                 clirun.invoke(self.cli, self.args(prelude))
                 with w.suspend():
@@ -204,6 +208,8 @@ class Runner:
                 p = os.path.join(self.outd, fn)
                 kind = kinds[fn]
                 old = w.clock - 100
+                if random.Random(f"{self.case['subset_seed']}:{fn}:mtime").random() < 0.25:
+                    old = w.clock + 4000  # dated in the future (clock skew, restored timestamps)
                 if kind in ("empty", "short", "long", "same", "same_size", "other_newlines"):
                     # "same": left by an earlier identical run - still a collision;
                     # "same_size": other content of exactly the new content's length
